@@ -461,10 +461,14 @@ class Vh:
         if not VH_BIN.exists():
             build_vh()
         self.p = subprocess.Popen([str(VH_BIN)], stdin=subprocess.PIPE, stdout=subprocess.PIPE, text=True, bufsize=1)
+        self.recent: List[Dict[str, Any]] = []      # the latest requests of this session (replay material when the core panics)
 
     def call(self, cmd: str, **kw: Any) -> Any:
         kw["cmd"] = cmd
         assert self.p.stdin and self.p.stdout
+        self.recent.append(kw)
+        if len(self.recent) > 4000:
+            del self.recent[:2000]
         self.p.stdin.write(json.dumps(kw) + "\n")
         self.p.stdin.flush()
         line = self._readline(kw)
@@ -472,7 +476,10 @@ class Vh:
             raise MachineryError(f"vh died on {cmd}")
         r = json.loads(line)
         if not r.get("ok"):
-            raise VhError(r.get("err") or r.get("panic") or "error", panic="panic" in r)
+            if "panic" in r:
+                # the Rust core itself panicked while serving an in-domain request: not a harness failure
+                raise ImplCrash("rs", f"panic:{cmd}", str(r.get("panic"))[:300], "", self.recent[-600:])
+            raise VhError(r.get("err") or "error")
         return r["r"]
 
     def _readline(self, req: Any, timeout: float = 120.0) -> str:
@@ -517,6 +524,54 @@ class VhError(Exception):
     def __init__(self, msg: str, panic: bool = False):
         super().__init__(msg)
         self.panic = panic
+
+
+class ImplCrash(Exception):
+    """The code under test (not the machinery) failed with an unexpected error on an input the check considers in scope:
+    a panic inside the Rust core, or a Python exception whose innermost frame lies in the repository.  The operation produced
+    no result at all, so whatever the property says about that result does not hold: reported as a violation (key NoCrash:...)."""
+
+    def __init__(self, impl: str, where: str, msg: str, tb: str = "", requests: Any = None):
+        super().__init__(impl, where, msg, tb, requests)
+        self.impl, self.where, self.msg, self.tb, self.requests = impl, where, msg, tb, requests
+
+    def __str__(self) -> str:
+        return f"{self.impl} {self.where}: {self.msg}"
+
+
+def classify_exception(e: BaseException) -> Optional["ImplCrash"]:
+    """ImplCrash if `e` was raised inside the repository's Python code (innermost frame under REPO), else None."""
+    import traceback as _tb
+    if isinstance(e, (ImplCrash, MachineryError, VhError, VhTimeout, KeyboardInterrupt, MemoryError)):
+        return e if isinstance(e, ImplCrash) else None
+    frames = _tb.extract_tb(e.__traceback__)
+    if not frames:
+        return None
+    inner = frames[-1]
+    repo = str(REPO.resolve()) + os.sep
+    fn = str(Path(inner.filename).resolve()) if inner.filename and not inner.filename.startswith("<") else inner.filename
+    if not fn.startswith(repo):
+        return None
+    rel = fn[len(repo):]
+    txt = "".join(_tb.format_exception(type(e), e, e.__traceback__))[-3000:]
+    return ImplCrash("py", f"{type(e).__name__}:{rel}:{inner.name}", str(e)[:300], txt, None)
+
+
+class _Guarded:
+    """pmap wrapper: exceptions raised by the code under test inside a worker come back as ImplCrash (picklable, with the
+    traceback text); everything else propagates unchanged."""
+
+    def __init__(self, func: Callable[[Any], Any]):
+        self.func = func
+
+    def __call__(self, a: Any) -> Any:
+        try:
+            return self.func(a)
+        except Exception as e:      # noqa: BLE001
+            c = classify_exception(e)
+            if c is not None and c is not e:
+                raise c from None
+            raise
 
 
 # --------------------------------------------------------------------------------------------
@@ -734,6 +789,7 @@ def pmap(func: Callable[[Any], Any], args: List[Any], procs: Optional[int] = Non
     if not args:
         return []
     procs = procs or min(NCPU, len(args))
+    func = _Guarded(func)
     if procs <= 1 or len(args) == 1:
         return [func(a) for a in args]
     # ProcessPoolExecutor (not mp.Pool): a worker killed by the kernel (out of memory) raises BrokenProcessPool instead of
